@@ -33,6 +33,16 @@ def histStep (tombs : Bool) (fs lh bs : Bool) (v : HVer) (k : Bool → Bool → 
     let bs' := bs || v.kind == .replace
     if !tombs && v.kind.isTomb then k true lh bs' else v :: k true lh bs'
 
+/-- a visible version ABOVE the timestamp range: it is not listed, but it goes through the flag updates
+(`above_ts_range`, `fix:` commit): a hard delete or replace newer than the range has erased the versions
+inside it -/
+def histStepAbove (fs lh bs : Bool) (v : HVer) (k : Bool → Bool → Bool → List HVer) : List HVer :=
+  let lh := if !fs && v.kind.isHard then true else lh
+  if lh then k true lh bs
+  else if bs then k true lh bs
+  else if v.kind.isHard then k true lh true
+  else k true lh (bs || v.kind == .replace)
+
 /-- loop state for one user key: first_visible_seen, latest_is_hard_delete, barrier_seen -/
 def histKeyFwd (tombs : Bool) (range : Option (Nat × Nat)) (snap : Nat) : Bool → Bool → Bool → List HVer → List HVer
   | _, _, _, [] => []
@@ -41,7 +51,7 @@ def histKeyFwd (tombs : Bool) (range : Option (Nat × Nat)) (snap : Nat) : Bool 
     else
       match range with
       | some (a, b) =>
-        if v.ts > b then histKeyFwd tombs range snap fs lh bs rest   -- skipped before the barrier logic
+        if v.ts > b then histStepAbove fs lh bs v (fun fs lh bs => histKeyFwd tombs range snap fs lh bs rest)
         else if v.ts < a then []                                     -- advance_to_next_user_key
         else histStep tombs fs lh bs v (fun fs lh bs => histKeyFwd tombs range snap fs lh bs rest)
       | none => histStep tombs fs lh bs v (fun fs lh bs => histKeyFwd tombs range snap fs lh bs rest)
@@ -98,3 +108,56 @@ def specGetAt (snap t : Nat) (vs : List HVer) : Option Nat :=
   match cands.foldl specPick none with
   | some v => if v.kind.isTomb then none else some v.val
   | none => none
+
+/-! ## backward scan (`collect_one_user_key_backward`): the versions of one key are collected oldest
+first, the newest barrier is searched from the newest end, the valid range is emitted oldest first -/
+
+/-- position (counted from the newest version, starting at `j`) of the newest barrier among versions given
+newest first, and whether it is a hard delete -/
+def newestBarrier : List HVer → Nat → Option (Nat × Bool)
+  | [], _ => none
+  | v :: rest, j =>
+    if v.kind.isHard then some (j, true) else if v.kind == .replace then some (j, false)
+    else newestBarrier rest (j + 1)
+
+def inRangeOpt (range : Option (Nat × Nat)) (v : HVer) : Bool :=
+  match range with
+  | some (a, b) => decide (a ≤ v.ts) && decide (v.ts ≤ b)
+  | none => true
+
+/-- `valid_start_idx` -/
+def bwdStart (len : Nat) : Option (Nat × Bool) → Nat
+  | some (j, true) => len - 1 - j + 1
+  | some (j, false) => len - 1 - j
+  | none => 0
+
+def histKeyBwd (tombs : Bool) (range : Option (Nat × Nat)) (snap : Nat) (vs : List HVer) : List HVer :=
+  let asc := vs.reverse.filter (fun v => decide (v.seq ≤ snap))
+  match asc.getLast? with
+  | none => []
+  | some latest =>
+    if latest.kind.isHard then []
+    else
+      let start := bwdStart asc.length (newestBarrier asc.reverse 0)
+      (asc.drop start).filter (fun v => !v.kind.isHard && (inRangeOpt range v && (tombs || !v.kind.isTomb)))
+
+/-- whole backward scan: keys descending, per key oldest first, cut at the limit -/
+def histBwd (o : HOpts) (snap : Nat) (keys : List (Nat × List HVer)) : List (Nat × HVer) :=
+  applyLimit o (keys.reverse.flatMap (fun kv => (histKeyBwd o.tombs o.range snap kv.2).map (fun v => (kv.1, v))))
+
+/-! ## the same version from two sources
+
+After a crash between the version-index update and the manifest switch of a flush, the versions of the
+interrupted flush are in the index AND (replayed from the commit log) in a memtable; a batch whose apply
+was retried after a rotation sits in two memtables.  The merge then delivers such a version twice, one
+copy right after the other.  Both history loops skip a version whose (sequence number, timestamp) equal
+those of the version examined just before (`fix:` commit); in the model that is a pass over the key's
+versions before the loop proper. -/
+
+def dedupAdj : List HVer → List HVer
+  | [] => []
+  | [x] => [x]
+  | x :: y :: r => if x.seq = y.seq ∧ x.ts = y.ts then dedupAdj (y :: r) else x :: dedupAdj (y :: r)
+
+def histKeyFwdD (tombs : Bool) (range : Option (Nat × Nat)) (snap : Nat) (vs : List HVer) : List HVer :=
+  histKeyFwd tombs range snap false false false (dedupAdj vs)
